@@ -27,6 +27,8 @@ static SCHEDULES: AtomicU64 = AtomicU64::new(0);
 static OUTCOMES: StdMutex<BTreeSet<Vec<u32>>> = StdMutex::new(BTreeSet::new());
 
 struct Block {
+    /// bytes of the block when it was released (deferred free): a later write is found at the end of the schedule
+    snapshot: Vec<u8>,
     base: usize,
     size: usize,
     align: usize,
@@ -46,7 +48,7 @@ fn violation(key: &str, msg: String) -> ! {
 }
 
 fn probe_alloc(base: *mut u8, size: usize) {
-    BLOCKS.lock().unwrap().push(Block { base: base as usize, size, align: 0, released: 0 });
+    BLOCKS.lock().unwrap().push(Block { snapshot: Vec::new(), base: base as usize, size, align: 0, released: 0 });
 }
 fn probe_release(base: *mut u8, size: usize, align: usize) -> bool {
     let mut b = BLOCKS.lock().unwrap();
@@ -67,6 +69,7 @@ fn probe_release(base: *mut u8, size: usize, align: usize) -> bool {
                 drop(b);
                 violation("release-size-mismatch", String::new());
             }
+            x.snapshot = unsafe { std::slice::from_raw_parts(base as *const u8, size) }.to_vec();
         }
     }
     RELEASED_BY.lock().unwrap().push(format!("{:?}", thread::current().id()));
@@ -108,10 +111,22 @@ fn end_schedule(expect_all_released: bool) {
             leaked = Some(b.base);
         }
     }
+    let mut dirty = None;
+    for b in &blocks {
+        if b.released >= 1 {
+            let now = unsafe { std::slice::from_raw_parts(b.base as *const u8, b.size) };
+            if let Some(off) = (0..b.size.min(b.snapshot.len())).find(|&i| now[i] != b.snapshot[i]) {
+                dirty = Some((b.base, off));
+            }
+        }
+    }
     for b in &blocks {
         if b.released >= 1 {
             unsafe { std::alloc::dealloc(b.base as *mut u8, std::alloc::Layout::from_size_align(b.size, b.align).unwrap()) };
         }
+    }
+    if let Some((base, off)) = dirty {
+        violation("write-after-release", format!("byte {} of waker block {:#x} was overwritten after the block had been released", off, base));
     }
     if expect_all_released {
         if let Some(base) = leaked {
@@ -406,6 +421,30 @@ fn c01_new_waker_each_poll_cap2() {
 }
 fn c01_wake_cap3() {
     wake_vs_poll(3, How::Wake, false, 0)
+}
+
+/// C01: one thread wakes the same child twice (a spurious wake, then the real one) while the
+/// executor polls in between: the second wake may find the slot still flagged or being dequeued
+fn c01_spurious_then_real() {
+    begin_schedule();
+    let sh = shared(1);
+    let mut q = FuturesUnorderedBounded::new(1);
+    q.push(FlagFut { id: 0, sh: sh.clone() });
+    let t = {
+        let sh = sh.clone();
+        thread::spawn(move || {
+            fire(&sh, How::WakeByRefDrop, false);
+            fire(&sh, How::Wake, true);
+        })
+    };
+    let mut ex = Exec::new(false);
+    let got = ex.drain(&mut q, 0);
+    t.join().unwrap();
+    check_outputs(got, 1);
+    drop(q);
+    drop(ex);
+    sh.wakers.lock().unwrap().clear();
+    end_schedule(true);
 }
 
 /// C01: two threads hold clones of the same child's waker
@@ -812,6 +851,7 @@ fn scenarios(prop: &str, tier: &str) -> Vec<(&'static str, Scn)> {
             v.push(("c01_wake_cap2", c01_wake_cap2));
             v.push(("c01_new_waker_each_poll_cap2", c01_new_waker_each_poll_cap2));
             v.push(("c01_double_wake", c01_double_wake));
+            v.push(("c01_spurious_then_real", c01_spurious_then_real));
             v.push(("c01_wake_vs_push", c01_wake_vs_push));
             v.push(("c01_merge_feed", c01_merge_feed));
             v.push(("c01_two_groups_same", c01_two_groups_same));
